@@ -285,6 +285,19 @@ def replay_file(chk, path):
     return 0 if vs and vs[0]["ok"] and not chk.violations else 1
 
 
+def nonrtc_leg(chk, rng, n, shards, events=None, tweak=None, featurize=None):
+    """rtc=False histories in which the actions of self / internal transitions send events that leave the state (run
+    depth-first inside the transition in progress), validated against the specification like every other execution."""
+    import gen
+    scns = []
+    for _ in range(n):
+        scn = gen.nonrtc_nesting_scenario(rng, events=events)
+        if tweak:
+            tweak(scn)
+        scns.append(scn)
+    run_validate(chk, scns, "non-RTC nesting on self/internal transitions", shards=shards, featurize=featurize)
+
+
 def standard(chk, rng, *, family_kw, consts, required, scen_fn, n_random, n_hist, fam_size,
              shards, label, hist_consts=None):
     """The three legs shared by the engine-level checks."""
